@@ -176,6 +176,15 @@ def has_nondiff(e, var, through=None) -> bool:
     return False
 
 
+def has_nondiff_floor_mod(e, var, through=None) -> bool:
+    """floor / Mod applied to something depending on var (sympy leaves the derivative unevaluated)"""
+    for n in X.walk(e):
+        if n[0] == "call" and n[1] in ("floor", "Mod"):
+            if any(depends(a, var, through) for a in n[2:]):
+                return True
+    return False
+
+
 def cond_depends(e, var, through=None) -> bool:
     """a condition / abs kink depending on var (derivative is piecewise)"""
     for n in X.walk(e):
